@@ -6,8 +6,11 @@ import (
 	"strings"
 )
 
-// InterpretTbl: the two switch statements of ipfix/interpret.go:
-// FieldType -> minimum length, FieldType -> result kind (by the printed return expression).
+// InterpretTbl: the switch statements of ipfix/interpret.go:
+// FieldType -> minimum length, FieldType -> result kind (by the printed return expression), and (since the
+// F24 repair) the over-long branch `if len(*b) > t.minLen() { switch t { … return wideUint(*b) / wideInt(*b) } }`:
+// FieldType -> helper, plus the statements of the two helpers. Fail closed: a statement in front of / behind the
+// switch that is not exactly of that shape is listed with its source text, which no theorem accepts.
 func init() { generators = append(generators, genInterpret) }
 
 var interpretKinds = map[string]string{
@@ -26,6 +29,42 @@ var interpretKinds = map[string]string{
 	"string(*b)":                                             "str",
 	"net.IP(*b)":                                             "ip",
 	"*b":                                                     "raw",
+}
+
+// the over-long branch of Interpret: helper call -> name in the generated table
+var interpretWide = map[string]string{"wideUint(*b)": "wideUint", "wideInt(*b)": "wideInt"}
+
+const wideGuard = "len(*b) > t.minLen()"
+
+// wideBranch recognises `if len(*b) > t.minLen() { switch t { case A, B: return wideX(*b) … } }` (no else, no
+// init, nothing else in the body, every case a single return of a known helper call, no default)
+func wideBranch(st ast.Stmt, text func(ast.Node) string) (rows [][2]string, ok bool) {
+	ifs, isIf := st.(*ast.IfStmt)
+	if !isIf || ifs.Init != nil || ifs.Else != nil || text(ifs.Cond) != wideGuard || len(ifs.Body.List) != 1 {
+		return nil, false
+	}
+	sw, isSw := ifs.Body.List[0].(*ast.SwitchStmt)
+	if !isSw || sw.Init != nil || sw.Tag == nil || text(sw.Tag) != "t" {
+		return nil, false
+	}
+	for _, c := range sw.Body.List {
+		cc := c.(*ast.CaseClause)
+		if cc.List == nil || len(cc.Body) != 1 {
+			return nil, false
+		}
+		rs, isRet := cc.Body[0].(*ast.ReturnStmt)
+		if !isRet || len(rs.Results) != 1 {
+			return nil, false
+		}
+		h, known := interpretWide[text(rs.Results[0])]
+		if !known {
+			return nil, false
+		}
+		for _, e := range cc.List {
+			rows = append(rows, [2]string{text(e), h})
+		}
+	}
+	return rows, true
 }
 
 func genInterpret(repo string) (genFile, error) {
@@ -52,6 +91,7 @@ func genInterpret(repo string) (genFile, error) {
 	}
 	var b strings.Builder
 	b.WriteString(header("InterpretTbl", "ipfix/interpret.go"))
+	var wideRows []string
 	emit := func(fn *ast.FuncDecl, name string, conv func(string) string, guardWant string) {
 		fmt.Fprintf(&b, "def %s : List (Nat × String) := [\n", name)
 		var rows []string
@@ -62,9 +102,21 @@ func genInterpret(repo string) (genFile, error) {
 			for _, st := range fn.Body.List {
 				sw, ok := st.(*ast.SwitchStmt)
 				if !ok {
+					if wr, isWide := wideBranch(st, func(n ast.Node) string { return src(fset, n) }); isWide && name == "interpretKind" && wideRows == nil {
+						for _, r := range wr {
+							i, known := idx[r[0]]
+							if !known {
+								i = 9999
+							}
+							wideRows = append(wideRows, fmt.Sprintf("  (%d, %s)", i, leanStr(r[1])))
+						}
+						pre = append(pre, "if "+wideGuard+" { switch t <interpretWide> }")
+						continue
+					}
 					pre = append(pre, src(fset, st))
 					continue
 				}
+				pre = append(pre, "switch t <"+name+">")
 				if src(fset, sw.Tag) != "t" {
 					rows = append(rows, fmt.Sprintf("  (9999, %s)", leanStr("!unrecognised switch tag "+src(fset, sw.Tag))))
 				}
@@ -91,7 +143,7 @@ func genInterpret(repo string) (genFile, error) {
 		}
 		b.WriteString(strings.Join(rows, ",\n"))
 		b.WriteString("\n]\n\n")
-		fmt.Fprintf(&b, "/-- statements of %s outside the switch (guard, final return) -/\ndef %sOther : List String := [", name, name)
+		fmt.Fprintf(&b, "/-- statements of %s in order, the switch itself as a marker (guard, over-long branch, final return) -/\ndef %sOther : List String := [", name, name)
 		for i, p := range pre {
 			if i > 0 {
 				b.WriteString(", ")
@@ -107,6 +159,37 @@ func genInterpret(repo string) (genFile, error) {
 		return "!unrecognised " + s
 	}, "")
 	emit(funcDecl(f, "FieldType", "minLen"), "minLen", func(s string) string { return s }, "")
+	b.WriteString("/-- the over-long branch of Interpret (`if len(*b) > t.minLen() { switch t … }`): FieldType -> helper -/\n")
+	b.WriteString("def interpretWide : List (Nat × String) := [\n" + strings.Join(wideRows, ",\n") + "\n]\n\n")
+	// the helpers: parameter list, result and every statement of the body, as source text
+	for _, h := range []string{"wideUint", "wideInt"} {
+		fmt.Fprintf(&b, "/-- `%s`: signature, then the statements of its body -/\ndef %sBody : List String := [", h, h)
+		fn := funcDecl(f, "", h)
+		if fn == nil {
+			b.WriteString(leanStr("!unrecognised: function missing"))
+		} else {
+			b.WriteString(leanStr("func" + strings.TrimPrefix(src(fset, fn.Type), "func")))
+			for _, st := range fn.Body.List {
+				b.WriteString(", " + leanStr(src(fset, st)))
+			}
+		}
+		b.WriteString("]\n\n")
+	}
+	// every function of the file: a new helper that nothing above describes changes this list
+	var fns []string
+	for _, d := range f.Decls {
+		if fd, ok := d.(*ast.FuncDecl); ok {
+			fns = append(fns, fd.Name.Name)
+		}
+	}
+	b.WriteString("def interpretFuncs : List String := [")
+	for i, n := range fns {
+		if i > 0 {
+			b.WriteString(", ")
+		}
+		b.WriteString(leanStr(n))
+	}
+	b.WriteString("]\n")
 	b.WriteString(footer("InterpretTbl"))
 	return genFile{"InterpretTbl", b.String()}, nil
 }
